@@ -206,7 +206,23 @@ impl<'tcx> Cx<'tcx> {
             };
             // skip bodies that come entirely from derive expansions (no repo logic in them)
             let dspan = tcx.def_span(did);
-            let derived = dspan.from_expansion() && dk != DefKind::Closure;
+            let derived = dk != DefKind::Closure && {
+                // only bodies generated by #[derive(..)] (marked #[automatically_derived]) are skipped;
+                // attribute macros such as #[tracing::instrument] keep their (user-written) body
+                let root = tcx.typeck_root_def_id(did);
+                let in_derived_impl = match tcx.def_kind(root) {
+                    DefKind::AssocFn | DefKind::AssocConst { .. } => tcx
+                        .impl_of_assoc(root)
+                        .map(|i| tcx.is_automatically_derived(i))
+                        .unwrap_or(false),
+                    _ => false,
+                };
+                in_derived_impl
+                    || (dspan.from_expansion()
+                        && dspan.macro_backtrace().any(|d| {
+                            matches!(d.kind, rustc_span::ExpnKind::Macro(rustc_span::MacroKind::Derive, _))
+                        }))
+            };
             let mut f: Vec<(&'static str, J)> = Vec::new();
             f.push(("def", J::s(self.path(did))));
             f.push(("kind", J::s(kind)));
